@@ -599,6 +599,10 @@ def enrich_for_hashing(rng, spec):
             t["named_srcs"] = True
         if rng.chance(0.3):
             t["pass_env"] = ["PE_A", "PE_B", "PE_C"]
+        if rng.chance(0.3):
+            # per-configuration commands with no entry for the active configuration: the fallback choice
+            # must be the same in every run
+            t["cmd_configs"] = rng.sample(["dbg", "cover", "asan", "zz", "aa"], rng.rng(2, 4))
     return spec
 
 
